@@ -8,6 +8,7 @@ from .. import dref
 from .. import impl
 from .. import explore
 from .. import modular as M
+from .. import reconf
 from . import c02, c04, c05, c09
 
 ID = 'C12'
@@ -16,7 +17,8 @@ RULE = ('specifications with 1-4 named assertions / sub-specifications (all deco
         'form); for every name n, get_value(n) after evaluate()/update() must equal what a STAND-ALONE real specification of the inlined formula of n '
         '(same monitor kind, pastified too if the specification was) returns on the same data: whole signal offline (one value per sample in discrete '
         'time, equal as a function in dense time), current value online; get_value(var) must be the supplied data. Online kinds are explored by BFS '
-        '(discrete: product BFS over sample vectors; dense: all schedules) with the stand-alone monitors stepped in lock-step; one obligation = one (state or data set, name) comparison')
+        '(discrete: product BFS over sample vectors; dense: all schedules) with the stand-alone monitors stepped in lock-step; one obligation = one (state or data set, name) comparison; '
+        'life layer: discrete offline objects that were used under another default unit / sampling period and then switched (vf/reconf.py), against fresh stand-alone specifications')
 ASSUMPTIONS = ['the stand-alone monitors are the real implementation (their own correctness is C01-C05)',
                'dense results are compared as step functions on the grid of the common domain']
 
@@ -54,9 +56,79 @@ def spec_cases(tier):
     return out
 
 
+def life_specs():
+    """(defs, top): named formulas with bounded operators; ('ref', n) refers to the definition n"""
+    px, X = F.PX, F.X
+    q1 = ('pred', '<=', X, F.C1)
+    return [
+        ([('p', ('once', (0, 1), px)), ('q', ('historically', (0, 2), q1))], ('and', ('ref', 'p'), ('always', (0, 1), ('ref', 'q')))),
+        ([('p', ('eventually', (1, 2), X))], ('or', ('ref', 'p'), ('once', (1, 1), ('ref', 'p')))),
+        ([('a', ('-', X, F.C1)), ('p', ('always', (0, 2), ('pred', '>=', ('ref', 'a'), F.C0)))], ('since', (0, 1), ('ref', 'p'), q1)),
+    ]
+
+
 def shards(tier):
     cs = spec_cases(tier)
-    return [{'i': i} for i in range(len(cs))]
+    return [{'i': i} for i in range(len(cs))] + [{'life': i, 'suffix': sfx} for i in range(len(life_specs())) for sfx in ('', 's', 'ms')]
+
+
+def run_life(shard, tier, res, mod):
+    """get_value on specification objects with an earlier life under another default unit / sampling period (vf/reconf.py): the stand-alone
+    oracle is a FRESH specification of the inlined formula configured with the target configuration from the start"""
+    defs, top = life_specs()[shard['life']]
+    suffix = shard['suffix']
+    b = reconf.speller(suffix)
+    env = dict(defs)
+    f = F.inline(top, env)
+    vs = sorted(F.fvars(f))
+    subs = tuple('%s = %s;' % (n, F.pr(g, bound=b)) for n, g in defs)
+    text = 'out = ' + F.pr(top, bound=b)
+    named = [(n, F.inline(g, env)) for n, g in defs] + [('out', f)]
+    case0 = {'life_layer': True, 'life_spec': shard['life'], 'suffix': suffix, 'spec': text, 'subspecs': list(subs), 'vars': vs}
+    res.formulas += 1
+    n = 3 if tier == 'quick' else 4
+    for name, c1, f1, spec in reconf.lived_objects('dt_off', f, suffix, vs, res, mod, case0, text=text, build_kw={'subspecs': subs}):
+        alone = {nm: reconf.build('dt_off', 'out = ' + F.pr(g, bound=b), vs, c1) for nm, g in named}
+        for tr in F.traces(n, F.V2, len(vs)):
+            w = F.trace_dict(tr, vs)
+            times = reconf.times(c1, len(tr))
+            res.evaluations += 1
+            k, val = impl.outcome(impl.dt_evaluate, spec, w, times)
+            msg = None
+            if k != 'ok':
+                msg = 'evaluate() raised %s' % (val,)
+            else:
+                for nm, g in named:
+                    want = [q[1] for q in impl.dt_evaluate(alone[nm], w, times)]
+                    got = impl.outcome(spec.get_value, nm)
+                    if got[0] != 'ok' or not isinstance(vals_of(got[1]), list) or not refsem.same_list(vals_of(got[1]), want):
+                        msg = ('object re-configured %s: get_value(%r) is %r; a fresh stand-alone specification `%s` under the new configuration evaluates to %r'
+                               % (name, nm, got[1], F.pr(g, bound=b), want))
+                        break
+                    res.nontrivial += 1
+                    res.flags['life_comparisons'] += 1
+            if msg:
+                res.violation(mod, dict(case0, life=name, trace=w, times=times), msg)
+                res.outcomes['life'] += 1
+            res.digest(text, name, tr, msg)
+    res.sample({'spec': text, 'sub_specs': list(subs), 'lives': [l[0] for l in reconf.lives()][:3]}, 1)
+
+
+def replay_life(case):
+    defs, top = life_specs()[case['life_spec']]
+    b = reconf.speller(case['suffix'])
+    env = dict(defs)
+    f = F.inline(top, env)
+    vs = case['vars']
+    named = [(n, F.inline(g, env)) for n, g in defs] + [('out', f)]
+    c1, f1, spec = reconf.lived_object('dt_off', f, case['suffix'], vs, case['life'], text=case['spec'], build_kw={'subspecs': tuple(case['subspecs'])})
+    impl.dt_evaluate(spec, case['trace'], case['times'])
+    for nm, g in named:
+        want = [q[1] for q in impl.dt_evaluate(reconf.build('dt_off', 'out = ' + F.pr(g, bound=b), vs, c1), case['trace'], case['times'])]
+        got = impl.outcome(spec.get_value, nm)
+        if got[0] != 'ok' or not refsem.same_list(vals_of(got[1]), want):
+            return ['get_value(%r) is %r; fresh stand-alone gives %r' % (nm, got[1], want)]
+    return []
 
 
 class Bundle(object):
@@ -222,6 +294,8 @@ class GvSchedule(c05.ScheduleModel):
 
 def run_shard(shard, tier, res):
     mod = sys.modules[__name__]
+    if 'life' in shard:
+        return run_life(shard, tier, res, mod)
     f, defs, top, subs, text, future = spec_cases(tier)[shard['i']]
     fj = F.to_json(f)
     case = {'formula': fj, 'defs': [[n, F.to_json(b)] for n, b in defs], 'spec': text, 'subspecs': list(subs), 'vars': sorted(F.fvars(f))}
@@ -265,6 +339,8 @@ def run_shard(shard, tier, res):
 
 
 def replay(case):
+    if case.get('life_layer'):
+        return replay_life(case)
     f = F.from_json(case['formula'])
     defs = [(n, F.from_json(b)) for n, b in case['defs']]
     subs, text = case['subspecs'], case['spec']
@@ -320,4 +396,6 @@ def finalize(agg, outcomes, flags, tier):
     from ..runner import Broken
     if agg['nontrivial'] < 1000:
         raise Broken('vacuous: only %d (data, name) comparisons' % agg['nontrivial'])
-    return {'name_comparisons': agg['nontrivial']}
+    if flags.get('life_comparisons', 0) < 500:
+        raise Broken('vacuous: only %d comparisons on re-configured objects' % flags.get('life_comparisons', 0))
+    return {'name_comparisons': agg['nontrivial'], 'of_which_on_reconfigured_objects': flags.get('life_comparisons', 0)}
